@@ -653,6 +653,12 @@ func runC05(c *core.Ctx) {
 				_ = hasLoop
 			}
 		}
+		// the element of an emitted loop is named by a variable of that loop, not by an
+		// expression built from the container and the emitted index: the emitter of the
+		// element type is the same function one level down, and re-declares that index
+		if bad == "" {
+			bad = elementNamedByContainer(sp, m)
+		}
 		c.Check(bad == "", "C05.codec-pairs", key, m.Pos(), "Marshal: "+etokString(mt)+"  /  Unmarshal: "+etokString(ut), "the generated encoder and decoder of "+tn+" are not inverses: "+bad)
 
 		// declaration of per-type functions
@@ -1108,4 +1114,54 @@ func ruleAdvertisedSignature(c *core.Ctx, typeIface *types.Interface) {
 	_ = proxyPos
 	c.Check(stubKey == proxyKey, rule, "ParametersSignature", stubPos, "stub advertises and proxy sends "+stubKey,
 		fmt.Sprintf("the generated stub advertises a method's parameters as %s while the generated proxy calls it with %s: the object matches (name, signature) exactly, so a call falls back to another overload of the same name, or is refused", stubKey, proxyKey))
+}
+
+// elementNamedByContainer: inside the emitted `for` of a Marshal emitter, the
+// expression handed to a member's own emitter mentions the emitter's
+// container parameter (id + "[i]"): nested containers then emit ret[i][i],
+// the inner loop re-declaring the index the outer element was named with.
+func elementNamedByContainer(p *packages.Package, fd *ast.FuncDecl) string {
+	params := map[types.Object]bool{}
+	if fd.Type.Params != nil {
+		for _, fl := range fd.Type.Params.List {
+			for _, n := range fl.Names {
+				params[p.TypesInfo.Defs[n]] = true
+			}
+		}
+	}
+	bad := ""
+	var inFor func(n ast.Node, within bool)
+	inFor = func(n ast.Node, within bool) {
+		ast.Inspect(n, func(x ast.Node) bool {
+			call, ok := x.(*ast.CallExpr)
+			if !ok {
+				return true
+			}
+			sel, isSel := call.Fun.(*ast.SelectorExpr)
+			// jen.For(...).Block(args...): everything under Block is in the emitted loop
+			if isSel && sel.Sel.Name == "Block" {
+				if inner, ok := sel.X.(*ast.CallExpr); ok {
+					if s2, ok := inner.Fun.(*ast.SelectorExpr); ok && s2.Sel.Name == "For" {
+						for _, a := range call.Args {
+							inFor(a, true)
+						}
+						return false
+					}
+				}
+			}
+			if within && isSel && sel.Sel.Name == "Marshal" && len(call.Args) > 0 {
+				ast.Inspect(call.Args[0], func(y ast.Node) bool {
+					if id, ok := y.(*ast.Ident); ok && params[p.TypesInfo.Uses[id]] {
+						bad = "inside the emitted loop the element handed to the member's emitter is named through the container parameter " + id.Name + " and the emitted loop index: a container nested in a container re-declares that index, and the inner elements are taken from the wrong row"
+					}
+					return true
+				})
+			}
+			return true
+		})
+	}
+	if fd.Body != nil {
+		inFor(fd.Body, false)
+	}
+	return bad
 }
